@@ -102,6 +102,12 @@ Definition Closed (s : state) : Prop :=
 (** the same for reachable commits only (what the ref walk needs; what crash states keep) *)
 Definition ClosedReach (s : state) : Prop :=
   forall c cm p, reach s c -> get_commit s c = Some cm -> In p (c_parents cm) -> get_commit s p <> None.
+(** the parent relation of the stored commits is well-founded.  With content addressing a commit's
+    id is the hash of bytes that contain its parents' ids, so a cycle would be a hash cycle: this is
+    an outside-world premise (like hash injectivity), explicit in the theorems that need it. *)
+Definition Acyclic (s : state) : Prop :=
+  exists rank : N -> nat, forall c cm p,
+    get_commit s c = Some cm -> In p (c_parents cm) -> (rank p < rank c)%nat.
 (** every ref points at a stored commit *)
 Definition RefsResolve (s : state) : Prop :=
   forall n c, In (n, c) (refs s) -> get_commit s c <> None.
@@ -126,6 +132,19 @@ Definition needed (s : state) (d : del) : Prop :=
   | Del KBlkIdx b => live_blkidx s b
   end.
 
+(** everything the commit [c] had in [s] is still there in [s']: the commit object, and - wherever
+    they existed - its table, table index, profile, and each block / block index the table lists
+    (a lookup that failed before may of course still fail: shallow commit, missing index) *)
+Definition commit_intact (s s' : state) (c : N) : Prop :=
+  get_commit s' c = get_commit s c /\
+  forall cm, get_commit s c = Some cm ->
+    get_table s' (c_table cm) = get_table s (c_table cm) /\
+    mem (c_table cm) (tblidx s') = mem (c_table cm) (tblidx s) /\
+    mem (c_table cm) (prof s') = mem (c_table cm) (prof s) /\
+    forall tb, get_table s (c_table cm) = Some tb ->
+      (forall b, In b (t_blocks tb) -> mem b (blocks s') = mem b (blocks s)) /\
+      (forall b, In b (t_blkidx tb) -> mem b (blkidx s') = mem b (blkidx s)).
+
 (** two states hold the same objects and refs (representation-independent equality) *)
 Definition same_objs (a b : state) : Prop :=
   (forall c, get_commit a c = get_commit b c) /\
@@ -141,5 +160,8 @@ Definition closedb (s : state) : bool :=
   forallb (fun kc => forallb (fun p => match get_commit s p with Some _ => true | None => false end)
                              (c_parents (snd kc)))
           (commits s).
+(* parents have smaller ids than their children: a sufficient, checkable condition for Acyclic *)
+Definition acyclicb (s : state) : bool :=
+  forallb (fun kc => forallb (fun p => p <? fst kc) (c_parents (snd kc))) (commits s).
 Definition refs_resolveb (s : state) : bool :=
   forallb (fun r => match get_commit s (snd r) with Some _ => true | None => false end) (refs s).
